@@ -428,10 +428,21 @@ def main(args) -> int:
                 r2["stage"] = f"second stage: {full} runs (first stage of {runs} runs found nothing)"
                 results[i] = r2
                 print(f"mutant {r2['id']:40s} {r2['property']}  {r2['status']:14s} {r2.get('wall_s', '')}  [{full} runs] {'; '.join(r2.get('signatures', []))[:120]}")
+    out_path = os.path.join(VERIF_ROOT, "evidence", "selftest_mutants.json")
+    partial = None
+    if only and os.path.isfile(out_path):
+        # a filtered run (VERIF_MUTANTS=...) updates the entries it ran and keeps the others of the last complete run
+        with open(out_path) as f:
+            prev = json.load(f)
+        mine = {r["id"] for r in results}
+        results = [r for r in prev.get("mutants", []) if r["id"] not in mine] + results
+        partial = (prev.get("partial_updates") or []) + [{"filter": only, "updated": sorted(mine), "when": time.strftime("%Y-%m-%d %H:%M:%S")}]
     killed = sum(r["status"] == "killed" for r in results)
     report = {"mutants": results, "killed": killed, "total": len(results), "wall_s": round(time.time() - t0, 1), "runs_per_mutant": runs}
+    if partial:
+        report["partial_updates"] = partial
     os.makedirs(os.path.join(VERIF_ROOT, "evidence"), exist_ok=True)
-    with open(os.path.join(VERIF_ROOT, "evidence", "selftest_mutants.json"), "w") as f:
+    with open(out_path, "w") as f:
         json.dump(report, f, indent=1, sort_keys=True)
     print(f"mutants killed {killed}/{len(results)}")
     bad = [r for r in results if r["status"] in ("harness-error", "not-applicable")]
